@@ -24,7 +24,7 @@ from . import csrtarget, tree
 
 PROP = "C01"
 LEVEL = "other"
-WB_CLAUSES = ["csr_leaf_reach", "sram_reach", "unselected_silent"]
+WB_CLAUSES = ["csr_leaf_reach", "sram_reach", "unselected_silent", "sequencer_back_at_reset"]
 KNOWN_ACK = "wb-ack-on-unassigned-address-inside-csr-bridge-window"
 
 
@@ -166,6 +166,17 @@ def check_wb(ctx, cfg):
         ctx.prove("csr_leaf_reach", z3.And(*conj), held, frames=frames, mem_replay=mem_replay)
     else:
         ctx.prove("csr_leaf_reach", z3.BoolVal(True))
+    # --- the start-state assumption above is re-established by every transfer: after the acknowledge cycle each bridge's
+    #     sequencer is in its reset state again, whether the initiator goes idle or presents the next transfer back to back
+    #     (so the clauses hold for every transfer of every sequence, by induction over transfers)
+    back = []
+    last = frames[-1]
+    for idx, v0 in st0.items():
+        sv = [x for x in nl.state if x.idx == idx][0]
+        if sv.kind == "ff" and not any(idx == nl.ff_of(s.wb_bus.ack) for s, _ in srams):
+            back.append(last.next_state(idx) == v0)
+    if back and bridges:
+        ctx.prove("sequencer_back_at_reset", z3.And(*back), held + [z3.Or(*[frames[-1].val(b.wb_bus.ack) == 1 for b, _ in bridges])], frames=frames, mem_replay=mem_replay)
     # --- SRAM leaves
     f0 = frames[0]
     sconj = []
